@@ -148,6 +148,10 @@ def worst(arr) -> float:
 def compare_kicks(fails, clause, what, a, b, kscale, pscale, cols=(1, 3, 5)):
     """a, b: particle arrays that must agree in the given columns within 1e-9*kick + 1e-12*|p|"""
     tol = 1e-9 * kscale + 1e-12 * pscale
+    if kscale < 1e-8 * pscale:
+        # the kick itself is numerically zero (e.g. the bunch lies outside the origin-centred grid: what remains is the
+        # round-off noise of the FFT solve, which depends on the summation order)
+        tol = max(tol, 10.0 * kscale)
     for c in cols:
         err = worst(a[..., c] - b[..., c])
         if not err <= tol:
